@@ -234,11 +234,15 @@ def rand_run(rng, fmt, kind, *, calls=None, iters=None, value_classes=None, dist
 
 KINDS = ['plain', 'vegas', 'mc']
 
+def small_bins(s):
+    """the executed model refines the grid once per rank: keep default grids small in MPI cases (cost ~ ranks x dims x bins^2)"""
+    return [(['chk', ['default', min(e[1][1], 8), e[1][2]]] if e[0] == 'chk' and e[1][0] == 'default' and len(e[1]) == 3 and isinstance(e[1][1], int) else e) for e in s]
+
 def mpi_variant(rng, s, info, worlds=(2, 3, 5, 8)):
     """the same specification run by the MPI driver on the thread shim: every ['run', calls] becomes ['mpi', calls, P, perm]"""
     P = rng.choice(list(worlds)); perm = list(range(P)); rng.shuffle(perm)
     out = []
-    for e in s:
+    for e in small_bins(s):
         if e[0] == 'ops':
             out.append(['ops', [(['mpi', op[1], P, perm] if op[0] == 'run' else op) for op in e[1]]])
         else:
@@ -287,7 +291,7 @@ def gen_C16_mpi(c, rng, tier):
                 ops = [['mpi', calls, P, perm], ['dump']]
                 if rng.random() < 0.5:
                     ops += [['mpi', calls[:1], P, perm], ['dump']]          # resume from the returned checkpoint
-                s = [e for e in s if e[0] != 'ops'] + [['ops', ops]]
+                s = small_bins([e for e in s if e[0] != 'ops'] + [['ops', ops]])
                 c.add(t, 'run', s, classes=cl + ['mpi_driver', 'world_%d' % P], info=info)
 
 @prop('C09', 'weight vectors (zeros front/middle/end, normalised or not, length 1..12) x canonical numbers at 0, pred(1), every '
@@ -1070,6 +1074,7 @@ def gen_C04(c, rng, tier):
                 if rng.random() < 0.25:
                     pre = [rng.choice([3, 6])]
                     ops += [['run', pre], ['reload']]; cl.append('resumed_checkpoint')
+                s0 = small_bins(s0)
                 s = [e for e in s0 if e[0] != 'ops'] + [['ops', ops + [['mpi', calls, P, perm], ['text']]]]
                 info = dict(info); info['calls'] = calls; info['world'] = P; info['poly'] = poly; info['pre'] = ops
                 cid = c.add(t, 'run', s, classes=cl + cl2 + ['world_%s' % ('1' if P == 1 else 'small' if P < 8 else 'large'),
